@@ -58,7 +58,7 @@ func TestVerifC04Wired(tt *testing.T) {
 				zone := rapid.SampledFrom([]string{"s.test.", "s.test.", "u.test."}).Draw(t, "zone")
 				a = asked{
 					name: vdns.Name(kind, 6, zone),
-					qt:   rapid.SampledFrom([]uint16{dns.TypeA, dns.TypeA, dns.TypeAAAA, dns.TypeTXT}).Draw(t, "qt"),
+					qt:   rapid.SampledFrom([]uint16{dns.TypeA, dns.TypeA, dns.TypeAAAA, dns.TypeTXT, dns.TypeSRV, dns.TypeMX, dns.TypeHTTPS}).Draw(t, "qt"),
 					do:   rapid.IntRange(0, 4).Draw(t, "do") == 0,
 				}
 				pool = append(pool, a)
